@@ -15,6 +15,7 @@ structure C28St where
   started : Bool := false
   finished : Bool := false
   violated : Bool := false
+  cfgOnly : Bool := false   -- a cfg op ran and nothing else yet
   trace : List Ev := []
 
 def c28Ints (xs : List String) : Option (List Nat) := xs.mapM (fun x => if x == "-1" then some 0 else x.toNat?)
@@ -34,19 +35,23 @@ def c28Step (st : C28St) (op impl : String) : C28St × String × String :=
     match c28Ints args with
     | some [w, c, m, _, _] =>
       if st.started ∨ w < 1 ∨ w > 64 ∨ c < 1 ∨ m < 1 then (st, "bad-op", "ok")
-      else ({ st with started := true }, "ok", "ok")
+      else ({ st with started := true, cfgOnly := true }, "ok", "ok")
     | _ => (st, "bad-op", "ok")
   | "phase" :: args =>
     match c28Ints args with
     | some [_, ns, burst, _, _, _, _, act] =>
       if ns < 1 ∨ ns > 64 ∨ burst > 1000 ∨ act > 3 ∨ st.finished then (st, "bad-op", "ok")
-      else c28Judge { st with started := true } impl
+      else c28Judge { st with started := true, cfgOnly := false } impl
     | _ => (st, "bad-op", "ok")
+  | ["redrain", w] =>
+    match w.toNat? with
+    | some n => if n > 5000 ∨ ¬ st.cfgOnly ∨ st.finished then (st, "bad-op", "ok") else c28Judge { st with cfgOnly := false } impl
+    | none => (st, "bad-op", "ok")
   | "gate" :: args =>
     match c28Ints args with
     | some [d, w] =>
       if d > 1 ∨ w > 5000 ∨ ¬ st.started ∨ st.finished then (st, "bad-op", "ok")
-      else c28Judge st impl
+      else c28Judge { st with cfgOnly := false } impl
     | _ => (st, "bad-op", "ok")
   | ["fin"] =>
     if ¬ st.started ∨ st.finished then (st, "bad-op", "ok") else
